@@ -696,7 +696,7 @@ def rule_cost_table(ctx: Ctx, prog: Program) -> None:
                                       "another domain's costs are used when the table is square, and the access leaves the table when it is not")
                     else:
                         ctx.undecided_site("R-COST-TABLE", f"{ent.name}:{src}", "orientation of the table access not recognised")
-    ctx.floor("R-COST-TABLE:table-accesses", n, 2)
+    ctx.floor("R-COST-TABLE:table-accesses", n, 1)
 
 
 def _all_loops_local(events: List[Event], acc: Optional[List[LoopSummary]] = None) -> List[LoopSummary]:
